@@ -18,7 +18,7 @@ func init() {
 	register(&Rule{ID: "TS-SERVE", Floor: 2,
 		Doc: "in every handler that serves stored content (http.ServeContent over a BlobGet reader) the Docker-Content-Digest header is the String() of the same digest value that was passed to BlobGet, the Content-Type is a constant or the media type of the same descriptor, and both headers are set on every path before the content is served",
 		Run: runServe})
-	register(&Rule{ID: "TS-FILTER-HDR", Floor: 2,
+	register(&Rule{ID: "TS-FILTER-HDR", Floor: 1,
 		Doc: "in the referrers read handler every path to a body write of cached or filtered data has passed the ‘filter is empty’ edge or has set the OCI-Filters-Applied header",
 		Run: runFilterHdr})
 	register(&Rule{ID: "TS-PAGE", Floor: 3,
@@ -1058,7 +1058,12 @@ func triggerOf(c *core.Ctx, r *Roles, b *ssa.BasicBlock) string {
 		}
 		_, args := an.CallArgs(call)
 		if an.IsFunc(call, digestPkg, "Parse") && len(args) == 1 {
-			for _, o := range an.Origins(args[0]) {
+			cands := append([]ssa.Value{}, an.Origins(args[0])...)
+			// the digest string handed to a step by its caller (`s.getPaged(…, cacheDig, …)`)
+			if leaves, _ := originsAcross(c, args[0], 0); len(leaves) > 0 {
+				cands = append(cands, leaves...)
+			}
+			for _, o := range cands {
 				if qc, _ := an.CallOf(o); qc != nil && an.IsMethod(qc, "net/url", "Values", "Get") {
 					_, qa := an.CallArgs(qc)
 					if s, ok := an.ConstString(qa[0]); ok {
